@@ -631,7 +631,9 @@ def explore(fn, max_paths=2000, on_path=None):
             if res[0] != 'infeasible':
                 if on_path is not None:
                     on_path(c, res)
-                out.append((c, res))
+                    out.append(None)                # the caller consumed the path: contexts of 10^4..10^5 paths are not kept alive
+                else:
+                    out.append((c, res))
             if len(out) > max_paths:
                 raise Budget(f'more than {max_paths} paths')
         finally:
